@@ -190,7 +190,8 @@ def run_format_traces(chk, scen_jobs):
         elif r['fmt'] == 'hex':
             it[0]['addr'] += 16
         elif r['fmt'] == 'listing':
-            rows = [x for x in it if x['k'] == 'row' and x['line'] >= 0]
+            # the address of a row that shows bytes (a row without bytes - a label, an origin, an empty fill - pins no memory cell)
+            rows = [x for x in it if x['k'] == 'row' and x['line'] >= 0 and x['data']]
             if not rows:
                 continue
             rows[-1]['addr'] += 1
